@@ -386,10 +386,62 @@ def run(db, tier):
     need = {"name_offset", "thtx_offset", "secondary_name_offset", "next_offset"}
     rep.check(need <= cand, "R-ENTRY-END", "read_entry|end candidates", re_.loc, "script end candidates: %s" % sorted(cand & need),
               "script end candidates lack %s: the last script of such an entry is read past its end" % sorted(need - cand))
-    # float literals of decompiled arguments must be re-lexable (rule shared with C08)
-    from props import c08
-    rep.rule("R-FLOAT", "floats are printed in a form the lexer accepts (shared with C08): an f32 argument printed as `1e-5` does not recompile")
-    c08.rule_float(db, rep)
+    # ---------------- R-TERMINAL: an end marker that a real instruction can also look like must not end the script by itself
+    rep.rule("R-TERMINAL", "an instruction format whose end-of-script marker is all zero bytes (indistinguishable from `ins_0()` at time 0 without "
+                           "arguments) reports it as MaybeTerminal, so that the script reader ends the script only at the expected end offset; "
+                           "Terminal is reserved for markers with a non-zero sentinel field")
+    n_fmt = 0
+    for im in db.impls:
+        if im["trait"] != "llir::InstrFormat" or im["self"].startswith("llir::Test"):
+            continue
+        w = r = None
+        for it in im["items"]:
+            if it["n"] == "write_terminal_instr":
+                w = db.fns.get(it["id"])
+            if it["n"] == "read_instr":
+                r = db.fns.get(it["id"])
+        if w is None or r is None:
+            continue
+        consts = []
+        nonconst = 0
+        for _, t in w.calls():
+            if re.match(r"^io::BinWrite::write_(u8|i8|u16|i16|u32|i32|f32)$", t.get("f", "")):
+                o = t["a"][1] if len(t["a"]) > 1 else {}
+                if "iv" in o:
+                    consts.append(o["iv"])
+                else:
+                    nonconst += 1
+        if not consts and not nonconst:
+            continue          # this format has no terminal instruction
+        n_fmt += 1
+        rep.fn(w)
+        rep.fn(r)
+        ctors = set()
+        for g in [r] + list(db.children.get(r.id, [])):
+            for b in g.blocks:
+                for st in b["s"]:
+                    if st["r"] == "agg" and (st.get("adt") or "").startswith("llir::ReadInstr::"):
+                        ctors.add(st["adt"].rsplit("::", 1)[-1])
+        all_zero = nonconst == 0 and all(c == 0 for c in consts)
+        if all_zero:
+            ok = "Terminal" not in ctors and "MaybeTerminal" in ctors
+            rep.check(ok, "R-TERMINAL", "%s|zero marker -> MaybeTerminal" % im["self"], r.loc, "the all-zero marker is reported as MaybeTerminal",
+                      "the end marker of %s is all zero bytes, but read_instr returns %s: a real `ins_0()` at time 0 in the middle of a script ends it, and everything after it is lost without a warning" % (im["self"], sorted(ctors)))
+        else:
+            ok = "Terminal" in ctors or "MaybeTerminal" in ctors
+            rep.check(ok, "R-TERMINAL", "%s|sentinel marker recognised" % im["self"], r.loc, "marker with sentinel %s is recognised (%s)" % ([c for c in consts if c != 0][:2], sorted(ctors & {"Terminal", "MaybeTerminal"})),
+                      "%s writes an end marker but read_instr never reports one" % im["self"])
+    rep.floor("instruction formats with an end marker", n_fmt, 7)
+
+    # the round trip goes through block recovery, printing, argument / string codecs, time labels and difficulty labels:
+    # the structural clauses of those properties are necessary conditions of this one
+    from props import c07, c08, c12, c13, c14, c15
+    rep.absorb(c07.run(db, tier), why="loops / if-else / break are recovered only when the reconstruction is exact")
+    rep.absorb(c08.run(db, tier), why="the decompiled text must parse back to the same script")
+    rep.absorb(c12.run(db, tier), why="argument decoding and encoding must be inverse")
+    rep.absorb(c13.run(db, tier), why="emitted time labels must reproduce the stored times")
+    rep.absorb(c14.run(db, tier), rules=("R-FLAG-DEF", "R-BITS", "R-LABEL-CODEC", "R-CONTIG"), why="difficulty labels must parse back to the stored mask")
+    rep.absorb(c15.run(db, tier), why="string arguments must survive decode + print + parse + encode")
     return rep
 
 
